@@ -24,9 +24,11 @@ verify)
 run)
   s=$1; shift; id=${s%%-*}
   props=${@:-$id}
-  cd /repo && git apply /verif/seeded/$s/patch.diff || { echo "patch does not apply to /repo"; exit 2; }
+  cd /repo && { git apply /verif/seeded/$s/patch.diff 2>/dev/null || git apply --3way /verif/seeded/$s/patch.diff >/dev/null 2>&1; } || { git reset -q; git checkout -q -- . ; echo "patch does not apply to /repo"; exit 2; }
+  if git diff --quiet && git diff --cached --quiet; then echo "patch does not apply to /repo"; exit 2; fi
+  if grep -rq "^<<<<<<<" $(git diff --name-only; git diff --cached --name-only) 2>/dev/null; then git reset -q; git checkout -q -- . ; echo "patch does not apply to /repo (conflict)"; exit 2; fi
   cd /verif
   for p in $props; do ./check $p --tier quick 2>&1 | grep -E "^(VIOLATION|OK|KNOWN)" | cut -c1-200; done
-  git -C /repo checkout -- .
+  git -C /repo reset -q; git -C /repo checkout -q -- .
   ;;
 esac
